@@ -2,6 +2,8 @@ package c03
 
 import (
 	"fmt"
+	"github.com/go-kid/ioc/app"
+	"github.com/go-kid/ioc/container/processors"
 	"reflect"
 	"sort"
 	"strings"
@@ -351,7 +353,6 @@ func TestKnownRetryAfterRefusedLazyCreation(t *testing.T) {
 	kit.Rec.KnownWitness("retry-after-refused-lazy-creation", fails, fmt.Sprintf("first lookup err=%v; second lookup err=%v returns %v; L1.Nx holds %T", err1 != nil, err2, got2, l1.Nx))
 }
 
-
 // TestExhaustive3All: EVERY digraph on 3 pure nodes (self loops included) x all creation orders x all plans
 // without before-initialization wrapping (early: no/wrap; after: no / new / the early wrapper) - 512 x 6 x 216 runs.
 func TestExhaustive3All(t *testing.T) {
@@ -366,4 +367,213 @@ func TestExhaustive3All(t *testing.T) {
 		}
 	}
 	enumeratePlans(t, 3, adjs, plans)
+}
+
+// TestRetryAfterInitFailure: all components are lazy, some fail their first initialisation, some are substituted
+// (any plan). After the (trivially successful) start every component is looked up by name; a lookup that failed
+// because an Init failed is tried once more. Whenever a name is finally published, every holder the container
+// created AFTER that component's last failed attempt must hold exactly the published version - a stale-version
+// error is the only other acceptable end. (Holders published before the failed attempt ended are the known
+// finding C01/dependant-keeps-early-reference-of-failed-lazy-creation; a retry after a REFUSED creation is the
+// known finding C03/retry-after-refused-lazy-creation: both are left out by construction.)
+func TestRetryAfterInitFailure(t *testing.T) {
+	kit.Rec.Rule(rule)
+	knownStale := kit.IsKnown("dependant-keeps-early-reference-of-failed-lazy-creation")
+	rapid.Check(t, func(t *rapid.T) {
+		s := graph.Gen(t, graph.GenOpts{MinNodes: 2, MaxNodes: 5, Variants: "L", Aliases: true})
+		plans := map[string]graph.WrapPlan{}
+		var pl []string
+		faulty := 0
+		for i := range s.Nodes {
+			if rapid.IntRange(0, 2).Draw(t, "failonce") == 0 {
+				s.Nodes[i].FailInit = zoo.FailOnce
+				faulty++
+			}
+		}
+		in := s.Instantiate()
+		in.ForceHook = true
+		for i := range s.Nodes {
+			if rapid.IntRange(0, 1).Draw(t, "wrapped") == 1 {
+				p := graph.WrapPlan{Early: rapid.IntRange(0, 1).Draw(t, "early"), After: rapid.SampledFrom([]int{0, 1, 1, 2, 3}).Draw(t, "after")}
+				n, _ := model.NameOf(in.Comps[i])
+				plans[n] = p
+				pl = append(pl, fmt.Sprintf("%d:%v", i, p))
+			}
+		}
+		wrap := &graph.WrapPP{Plan: plans, IDOf: func(c any) int {
+			if id, ok := in.IDs[reflect.ValueOf(c).Pointer()]; ok {
+				return id
+			}
+			return -1
+		}}
+		in.Extra = append(in.Extra, wrap)
+		in.Run()
+		desc := "retry-after-init-failure " + s.Shape() + " plans=" + strings.Join(pl, ",")
+		if !in.Out.OK() {
+			t.Fatalf("C03: nothing is eager, yet start-up failed: %v\n%s", in.Out, desc)
+		}
+		g := in.G
+		initFailures := func() int {
+			n := 0
+			for _, b := range in.Behs {
+				if b != nil && b.FailInit == zoo.FailOnce && b.InitCalls >= 1 {
+					n++
+				}
+			}
+			return n
+		}
+		published := map[string]any{}
+		var hist []string
+		retried := false
+	lookups:
+		for _, c := range g.Pop {
+			if c.ID < 0 {
+				continue
+			}
+			for attempt := 0; attempt < 3; attempt++ {
+				before := initFailures()
+				var got any
+				var err error
+				if p := kit.Protect(func() { got, err = in.Out.App.GetComponentByName(c.Name) }); p != nil {
+					t.Fatalf("C03: lookup of %q panicked: %v\n%s", c.Name, p, desc)
+				}
+				hist = append(hist, fmt.Sprintf("%s:%v", c.Name, err != nil))
+				if err == nil {
+					published[c.Name] = got
+					break
+				}
+				if initFailures() == before {
+					// refused for another reason (stale version): a further attempt is the other known finding
+					kit.Rec.Exclude("retry-after-refused-lazy-creation")
+					break lookups
+				}
+				retried = true
+			}
+		}
+		lastFail, okAt := map[string]int{}, map[string]int{}
+		for i, e := range in.Tracer.Events {
+			if e.Op == "create-exit" {
+				if e.Err {
+					lastFail[e.Name] = i + 1
+				} else if e.Flag {
+					okAt[e.Name] = i + 1
+				}
+			}
+		}
+		checked := 0
+		for id := range in.Comps {
+			c := in.Comp(id)
+			if okAt[c.Name] == 0 {
+				continue // not created (or not since its last failure)
+			}
+			if okAt[c.Name] < lastFail[c.Name] {
+				continue
+			}
+			for _, p := range g.Points[c] {
+				for _, sx := range graph.Observe(g, p) {
+					tn := sx.TargetName(g)
+					pub, ok := published[tn]
+					if !ok || tn == "" {
+						continue
+					}
+					if okAt[c.Name] < lastFail[tn] {
+						if knownStale {
+							kit.Rec.Exclude("dependant-keeps-early-reference-of-failed-lazy-creation")
+							continue
+						}
+					}
+					checked++
+					if sx.Raw != pub {
+						t.Fatalf("C03: mixed versions of %q after a retried creation: %s.%s holds %v, the container publishes %v\nlookups %v\n%s\ntrace:\n%s", tn, c.Name, p.Field.Name, sx.Raw, pub, hist, desc, in.Tracer.Dump(80))
+					}
+				}
+			}
+		}
+		labels := []string{"retry-history"}
+		if retried {
+			labels = append(labels, "lookup-retried-after-init-failure")
+		}
+		kit.Rec.Case(desc+" | "+strings.Join(hist, ","), retried && checked > 0 && len(plans) > 0, labels...)
+	})
+}
+
+// ---------------------------------------------------------------------------------------------------
+// Known finding (filed under C01 and C03) dependant-keeps-early-reference-of-failed-lazy-creation: fixed witness.
+//
+// All components are lazy; "k-a" is proxied by an auto-proxy style post-processor (a fresh proxy whenever an
+// early reference is requested; the container publishes the early reference). k-a wires k-b, k-c, k-d; k-b and
+// k-d wire k-a back; k-c fails its first initialisation.
+// Lookup 1 of k-a: k-b receives early proxy #1 of k-a and is published; k-c fails; the creation of k-a fails.
+// Lookup 2 of k-a: k-b is taken as published, k-c succeeds, k-d receives early proxy #2, which is published.
+// k-b keeps proxy #1 of the failed attempt: two versions of k-a are live.
+
+type KI interface{ isKA() }
+type KA struct {
+	B *KB `wire:""`
+	C *KC `wire:""`
+	D *KD `wire:""`
+}
+
+func (*KA) isKA()          {}
+func (*KA) LazyInit()      {}
+func (*KA) Naming() string { return "k-a" }
+
+type KB struct {
+	A KI `wire:""`
+}
+
+func (*KB) LazyInit() {}
+
+type KC struct{ inits int }
+
+func (*KC) LazyInit() {}
+func (c *KC) Init() error {
+	c.inits++
+	if c.inits == 1 {
+		return fmt.Errorf("first initialisation fails")
+	}
+	return nil
+}
+
+type KD struct {
+	A KI `wire:""`
+}
+
+func (*KD) LazyInit() {}
+
+type KProxy struct {
+	Target any
+	N      int
+}
+
+func (*KProxy) isKA() {}
+
+type kProxyPP struct {
+	processors.DefaultInstantiationAwareComponentPostProcessor
+	n    int
+	last *KProxy
+}
+
+func (p *kProxyPP) GetEarlyBeanReference(c any, name string) (any, error) {
+	if name != "k-a" {
+		return c, nil
+	}
+	p.n++
+	p.last = &KProxy{Target: c, N: p.n}
+	return p.last, nil
+}
+
+func TestKnownStaleEarlyReferenceAfterFailedCreation(t *testing.T) {
+	const class = "dependant-keeps-early-reference-of-failed-lazy-creation"
+	a, b, c, d := &KA{}, &KB{}, &KC{}, &KD{}
+	out := kit.RunApp(app.SetComponents(a, b, c, d, &kProxyPP{}))
+	if !out.OK() {
+		kit.Rec.KnownWitness(class, false, "start failed: "+out.String())
+		return
+	}
+	_, err1 := out.App.GetComponentByName("k-a")
+	got2, err2 := out.App.GetComponentByName("k-a")
+	fails := err1 != nil && err2 == nil && b.A != nil && any(b.A) != got2 && d.A != nil && any(d.A) == got2
+	kit.Rec.KnownWitness(class, fails, fmt.Sprintf("lookup 1 err=%v; lookup 2 err=%v returns %v; k-b holds %v, k-d holds %v", err1 != nil, err2, got2, b.A, d.A))
+	t.Logf("witness fails=%v: lookup 1 err=%v; lookup 2 err=%v returns %v; k-b holds %v, k-d holds %v", fails, err1, err2, got2, b.A, d.A)
 }
